@@ -257,7 +257,7 @@ func diagnose(dones []<-chan struct{}, gap time.Duration) *StuckReport {
 
 // StuckSendRoots: goroutines of the code under test whose stack contains one of these functions are judged
 // when they are parked in a channel send.
-var StuckSendRoots = []string{"server.(*FSM).run"}
+var StuckSendRoots = []string{"server.(*FSM).run", "server.(*bgpServer).incomingConnectionWorker"}
 
 func (g *Goroutine) hasFunc(subs []string) bool {
 	for _, fn := range g.Funcs {
